@@ -395,3 +395,12 @@ func specEncLen(s structEncoder, n int) int {
 // parseFieldParameters reads a struct tag (strings.Split, strconv): assumed to return some parameter set.
 //@ func parseFieldParameters [C16]
 //@   trusted
+
+// ---- makeField (C04): marshalling never panics in the encoder's own code --------------------------------
+// reflect is opaque (its own panics are not modelled); recursive calls go through this contract: a nil
+// error comes with a non-nil encoder.
+//@ func makeField [C04]
+//@   ensures result1 == nil ==> result0 != nil
+//@   linear s
+//@   loop 0: invariant 0 <= i && len(s) == structType.NumField()
+//@   loop 1: invariant 0 <= i && len(s) == v.Len()
